@@ -18,6 +18,7 @@ import (
 	"strings"
 	"testing"
 	"testing/synctest"
+	"time"
 )
 
 // Violation is one refutation of a property observed by a monitor.
@@ -111,6 +112,7 @@ type Prop struct {
 	// Required rule ids (minimum hit count 1 over the run); unmet => inconclusive.
 	Required []string
 	Level    string // exploration | fault_enumeration
+	Build    string // worker build kind: "" (= race), "checkptr" (plain build with -d=checkptr), "asan"
 }
 
 var registry = map[string]*Prop{}
@@ -180,7 +182,7 @@ func runWorker(t *testing.T) {
 		}
 		sort.Strings(ids)
 		out, _ := json.Marshal(map[string]any{"cases": p.Cases(tier), "batch": p.Batch(tier), "rule": p.Rule,
-			"required": p.Required, "level": p.Level, "props": ids})
+			"required": p.Required, "level": p.Level, "props": ids, "build": p.Build})
 		fmt.Printf("PLAN %s\n", out)
 		return
 	}
@@ -213,6 +215,7 @@ func runWorker(t *testing.T) {
 		c := &Case{Prop: propID, Tier: tier, Seed: seed, Index: i, T: t, Verbose: verbose,
 			Rng:   rand.New(rand.NewPCG(s1, s2)),
 			Rules: map[string]int{}, Events: map[string]int{}, Extra: map[string]float64{}, Max: map[string]float64{}}
+		t0 := time.Now()
 		func() {
 			defer func() {
 				if r := recover(); r != nil {
@@ -221,6 +224,7 @@ func runWorker(t *testing.T) {
 			}()
 			p.Run(c)
 		}()
+		c.Max["case_wall_ms"] = float64(time.Since(t0).Milliseconds())
 		rl := resultLine{Case: i, Hash: hashKey(c.Key), NT: c.NT, Viol: c.Viol, Rules: c.Rules, Events: c.Events,
 			Inter: c.Inter, Extra: c.Extra, Max: c.Max, Inconcl: c.Inconcl, Raced: c.Raced}
 		if i-from < samples || len(c.Viol) > 0 || verbose {
